@@ -193,3 +193,87 @@ func racePass() {
 	}
 	fmt.Fprintf(os.Stderr, "  free-running pass: %d runs, %d matching the reference, %d violations\n", res.Runs, res.Matching, res.Viol)
 }
+
+// freePass: conformance of the instrumentation for C10.  Every scenario of the C10 scopes is also run on the
+// UN-instrumented processing package, free running (no scheduler, pass-through runtime), once at GOMAXPROCS 1 and
+// once at 16, and what each target received is compared with the same sequential reference.  The explorer judges the
+// instrumented copy of the code; this pass shows that the real code produces the explored outcome (a rewrite that
+// changes the meaning of the code - or repairs a defect in the copy - is caught here).
+func freePass() {
+	type result struct {
+		Class    string   `json:"class"`
+		Runs     int      `json:"runs"`
+		Matching int      `json:"outcomes_matching_reference"`
+		Viol     int      `json:"violations"`
+		Messages []string `json:"messages"`
+		Scens    int      `json:"scenarios"`
+	}
+	res := result{Class: "mismatch"}
+	thorough := os.Getenv("VERIF_TIER") == "thorough"
+	for _, sc := range scopesC10(thorough) {
+		for _, stream := range sc.Streams {
+			res.Scens++
+			for _, procs := range []int{1, 16} {
+				runtime.GOMAXPROCS(procs)
+				scn := &scenario{Stream: stream, Targets: sc.Targets, tmIDs: tmIDsFor(sc.Targets)}
+				table := "table-1"
+				tm := map[int]processing.Target{}
+				var targets []*fakeTarget
+				for _, id := range scn.tmIDs {
+					t := &fakeTarget{tm: id, table: &table}
+					targets = append(targets, t)
+					tm[id] = t
+				}
+				src := &fakeSource{feats: scn.build()}
+				done := make(chan struct{})
+				go func() {
+					processing.ProcessFeatures(src, tm, scn.snapFunc(procs == 1))
+					close(done)
+				}()
+				select {
+				case <-done:
+				case <-time.After(120 * time.Second):
+					res.Viol++
+					res.Class = "timeout"
+					res.Messages = append(res.Messages, fmt.Sprintf("free run did not return within 120 s: stream %v targets=%d GOMAXPROCS=%d", stream, sc.Targets, procs))
+					out, _ := json.Marshal(res)
+					_ = os.WriteFile(os.Getenv("VERIF_FREE_RESULT"), out, 0o644)
+					os.Exit(0)
+				}
+				res.Runs++
+				ok := true
+				for ti, t := range targets {
+					what := ""
+					if !t.flushed {
+						what = "returned before the target finished"
+					} else if d := diffRecs(scn.reference(ti), t.atHandle); d != "" {
+						what = d
+					} else if d := diffRecs(scn.reference(ti), t.atFlush); d != "" {
+						what = "at flush time: " + d
+					}
+					if what != "" {
+						ok = false
+						if len(res.Messages) < 5 {
+							res.Messages = append(res.Messages, fmt.Sprintf("un-instrumented code, stream %v, %d targets, GOMAXPROCS=%d, target %d: %s", stream, sc.Targets, procs, ti, what))
+						}
+						break
+					}
+				}
+				if ok {
+					res.Matching++
+				} else {
+					res.Viol++
+				}
+			}
+		}
+	}
+	if res.Viol == 0 {
+		res.Class = "none"
+	}
+	out, _ := json.Marshal(res)
+	if err := os.WriteFile(os.Getenv("VERIF_FREE_RESULT"), out, 0o644); err != nil {
+		fmt.Fprintln(os.Stderr, err)
+		os.Exit(2)
+	}
+	fmt.Fprintf(os.Stderr, "  free-running conformance: %d scenarios, %d runs, %d matching the reference, %d violations\n", res.Scens, res.Runs, res.Matching, res.Viol)
+}
